@@ -85,6 +85,7 @@ func c12Structure(r *Run, kind string, schema *ast.Schema, doc map[string]any, r
 				continue
 			}
 			c12Field(r, kind, o.Name+"."+f.Name, f.Type, p, replay, tag)
+			c12FieldMeta(r, kind, o.Name+"."+f.Name, f, p, replay, tag)
 		}
 		var gotReq []string
 		if l, ok := d["required"].([]any); ok {
@@ -175,6 +176,26 @@ func c12Field(r *Run, kind, where string, t ast.Type, p map[string]any, replay m
 				r.Violation(kind+"/enum-values-differ/"+tag, fmt.Sprintf("%s: member %d is %s, IR says %v", where, i, short(ev[i]), m.Value), replay)
 			}
 		}
+	case ast.KindDisjunction:
+		if t.Disjunction == nil {
+			return
+		}
+		branches, ok := p["anyOf"].([]any)
+		if !ok {
+			if _, isRef := p["$ref"]; !isRef {
+				r.Violation(kind+"/union-branches-dropped/"+tag, fmt.Sprintf("%s: no anyOf keyword for a union of %d branches (%s)", where, len(t.Disjunction.Branches), short(p)), replay)
+			}
+			return
+		}
+		if len(branches) != len(t.Disjunction.Branches) {
+			r.Violation(kind+"/union-branches-differ/"+tag, fmt.Sprintf("%s: %d anyOf branches, the IR union has %d (%s)", where, len(branches), len(t.Disjunction.Branches), short(p)), replay)
+			return
+		}
+		for i, b := range t.Disjunction.Branches {
+			if bp, ok := branches[i].(map[string]any); ok {
+				c12Field(r, kind, fmt.Sprintf("%s|%d", where, i), b, bp, replay, tag)
+			}
+		}
 	case ast.KindArray:
 		if items, ok := p["items"].(map[string]any); ok && t.Array != nil {
 			c12Field(r, kind, where+"[]", t.Array.ValueType, items, replay, tag)
@@ -191,9 +212,24 @@ func c12Field(r *Run, kind, where string, t ast.Type, p map[string]any, replay m
 		for _, f := range t.Struct.Fields {
 			if fp, ok := props[f.Name].(map[string]any); ok {
 				c12Field(r, kind, where+"."+f.Name, f.Type, fp, replay, tag)
+				c12FieldMeta(r, kind, where+"."+f.Name, f, fp, replay, tag)
 			} else {
 				r.Violation(kind+"/field-missing/"+tag, fmt.Sprintf("nested field %s.%s does not appear under its own name", where, f.Name), replay)
 			}
+		}
+	}
+}
+
+// c12FieldMeta: a property carries its own field's description and default, nobody else's.
+func c12FieldMeta(r *Run, kind, where string, f ast.StructField, p map[string]any, replay map[string]any, tag string) {
+	want := strings.Join(f.Comments, "\n")
+	got, has := p["description"].(string)
+	if want != got {
+		r.Violation(kind+"/field-description-differs/"+tag, fmt.Sprintf("%s: description %q, the IR field's comments are %q (present=%v)", where, got, want, has), replay)
+	}
+	if f.Type.Default == nil {
+		if dv, ok := p["default"]; ok {
+			r.Violation(kind+"/default-invented/"+string(f.Type.Kind)+"/"+tag, fmt.Sprintf("%s: default %s is emitted, the IR field has none", where, short(dv)), replay)
 		}
 	}
 }
